@@ -45,8 +45,8 @@ _REFS = {}
 
 def plan(prop, tier):
     if tier == "thorough":
-        return {"runs": 12000, "chunk": 100, "wall_cap": 1800, "selftest": 48, "shrink_wall": 900, "max_shrunk": 16}
-    return {"runs": 1200, "chunk": 25, "wall_cap": 300, "selftest": 12, "shrink_wall": 300, "max_shrunk": 12}
+        return {"run_timeout": 1200, "mem_cap_gb": 0, "runs": 12000, "chunk": 100, "wall_cap": 1800, "selftest": 48, "shrink_wall": 900, "max_shrunk": 16}
+    return {"run_timeout": 1200, "mem_cap_gb": 0, "runs": 1200, "chunk": 25, "wall_cap": 300, "selftest": 12, "shrink_wall": 300, "max_shrunk": 12}
 
 
 def hashseeds(tier):
